@@ -34,7 +34,7 @@ RULE = ('operations parse(t, with_comments=f) over a pool of 45 valid, invalid a
 ASSUMPTIONS = ['reuse of one Parser object is documented as stateful and is not part of the property',
                'thread schedules are explored by stress (switch interval sweep, yield injection), not enumerated; the '
                'evidence reports how many operation pairs really overlapped']
-BUDGET_S = {'quick': 75, 'thorough': 800}
+BUDGET_S = {'quick': 120, 'thorough': 800}
 REQUIRED_HITS = ['golden_from_fresh_process', 'sequential_call', 'entry_point_call', 'concurrent_call', 'overlapping_pairs',
                  'yield_injected', 'shared_state_compared']
 FLOOR = {'quick': 2000, 'thorough': 10000}
